@@ -194,7 +194,7 @@ claim("C08", "proof",
       "DESIGN.md section 6, C08")
 
 claim("C13", "proof",
-      "Coq theorems about a line-by-line model of the intrusive reference counting (allocation holding child handles, "
+      "Translator tie: the members of type Tree of every node alternative (data.hpp) and the members Tree::~Tree moves onto its work list (tree.cpp) are re-read on every run (Gen/TreeDtor_gen.v; the destructor's skeleton and the constructor's increment are checked by shape) and the kernel checks that every child is stolen before `delete t` (C13_destructor_steals_every_child), which is what the model's drop_loop assumes.  Coq theorems about a line-by-line model of the intrusive reference counting (allocation holding child handles, "
       "handle copy, the work-list destructor): the count invariant holds in every state reachable by any operation "
       "sequence, the instrumented destructor never touches a dead cell and frees each cell once, arguments are never "
       "invalidated, alive <-> reachable (leak-free), the destructor loop is bounded by the edge count; copy-assignment from a "
